@@ -347,11 +347,19 @@ def strip_graph(g, keep_pages):
 def sweep_C07(ctx):
     m, t = ctx.model, ctx.t
     tallies = m.tallies()
+    links_in = getattr(m, "links_in", None)  # recovered states: inbound lists may lag behind outbound ones
     for include_auto in (False, True):
         net = m.network(include_auto)
         exp_out = {a: dict(d) for a, d in net.items()}
         exp_in = {}
-        for a, d in net.items():
+        if links_in is None:
+            net_in = net
+        else:
+            saved = m.links
+            m.links = links_in
+            net_in = m.network(include_auto)
+            m.links = saved
+        for a, d in net_in.items():
             for b, w in d.items():
                 exp_in.setdefault(b, {})[a] = w
         for out, exp in ((True, exp_out), (False, exp_in)):
@@ -382,6 +390,9 @@ def sweep_C07(ctx):
 # ---------------------------------------------------------------------------
 def sweep_C08(ctx):
     m, t = ctx.model, ctx.t
+    links_in = getattr(m, "links_in", None)
+    if links_in is None:
+        links_in = m.links
     p2w = m.page_to_we()
     for w in m.weids():
         prefs = m.we_prefixes(w)
@@ -400,12 +411,13 @@ def sweep_C08(ctx):
                     tw = p2w[x]
                     if (outbound and tw != w) or (internal and tw == w):
                         exp.append((s, x, n))
+            for (s, x), n in links_in.items():
                 if inbound and x in mine and p2w[s] != w:
                     exp.append((s, x, n))
             exp.sort()
             ctx.check("C08.pagelinks", got == exp, lambda: "get_webentity_pagelinks(%r, %s, in=%s, int=%s, out=%s) = %s expected %s" % (w, short(prefs), inbound, internal, outbound, short(got), short(exp)))
         cited = {p2w[x] for (s, x) in m.links if s in mine}
-        citing = {p2w[s] for (s, x) in m.links if x in mine}
+        citing = {p2w[s] for (s, x) in links_in if x in mine}
         r = guarded(ctx, "C08.cited", t.get_webentity_outlinks, w, prefs)[1]
         ctx.check("C08.cited", set(r) - {None} == cited - {None}, lambda: "cited webentities of %r = %s expected %s" % (w, short(sorted(x for x in r if x)), short(sorted(x for x in cited if x))))
         r = guarded(ctx, "C08.citing", t.get_webentity_inlinks, w, prefs)[1]
@@ -588,3 +600,59 @@ def sweep_C20(ctx, known=None):
     if len(m.links) >= 2 and m.weids():
         ctx.res.nontrivial = True
     ctx.note("C20", sorted(m.links.items()))
+
+
+# ---------------------------------------------------------------------------
+# read-your-writes adjacency probes (C04): the same LRU is resolved right
+# before and right after every request, with nothing in between, so that an
+# answer remembered from before the request cannot pass for the current one.
+def _resolve_probe(ctx, q, when):
+    m, t = ctx.model, ctx.t
+    e = m.E(q)
+    r = guarded(ctx, "C04.adjacent_resolution", t.retrieve_webentity, q)
+    if e is None:
+        ctx.check("C04.adjacent_resolution", r[0] == "refused", lambda: "%s op #%d: retrieve_webentity(%s) = %r but nothing is attached above it" % (when, ctx.op_index, short(q), r))
+    else:
+        ctx.check("C04.adjacent_resolution", r == ("ok", m.pref[e]), lambda: "%s op #%d: retrieve_webentity(%s) = %r expected %r" % (when, ctx.op_index, short(q), r, m.pref[e]))
+    r = guarded(ctx, "C04.adjacent_resolution", t.retrieve_prefix, q)
+    if e is None:
+        ctx.check("C04.adjacent_resolution", r[0] == "refused", lambda: "%s op #%d: retrieve_prefix(%s) = %r expected refusal" % (when, ctx.op_index, short(q), r))
+    else:
+        ctx.check("C04.adjacent_resolution", r == ("ok", e), lambda: "%s op #%d: retrieve_prefix(%s) = %r expected %s" % (when, ctx.op_index, short(q), r, short(e)))
+
+
+def pre_op_C04(ctx, i, op):
+    from . import ops as O
+
+    cand = []
+    for x in O.op_lrus(op):
+        cand.append(O.dec(x))
+    if "ref" in op:
+        cand.append(O.dec(op["ref"]))
+        w = ctx.model.pref.get(O.dec(op["ref"]))
+        if w is not None:
+            cand.extend(ctx.model.we_prefixes(w))
+    if not cand:
+        ctx.c04_probes = []
+        return
+    r = ctx.obs_rng
+    probes = []
+    for _ in range(2):
+        q = r.choice(cand)
+        x = r.random()
+        if x < 0.4:
+            below = sorted(l for l in ctx.model.nodes if l.startswith(q) and l != q)
+            if below:
+                q = r.choice(below)
+        elif x < 0.6:
+            q = q + r.choice([b"p:zz|", b"p:x|", b"q:absent|"])
+        probes.append(q)
+    for q in probes:
+        _resolve_probe(ctx, q, "before")
+    ctx.c04_probes = probes
+
+
+def after_op_C04(ctx, i, op):
+    for q in reversed(getattr(ctx, "c04_probes", [])):
+        _resolve_probe(ctx, q, "after")
+        ctx.probe("adjacent_probe")
